@@ -44,7 +44,8 @@ URLS = [(b'http://10.0.5.1', ('10.0.5.1', 80)), (b'http://10.0.5.1/', ('10.0.5.1
         (b'http://up2.example:81', ('10.0.5.4', 81)), (b'http://10.0.5.5:80/x/', ('10.0.5.5', 80)),
         (b'http://10.0.5.6:8000/deep/path/here', ('10.0.5.6', 8000)),
         # an https upstream: default port 443, TLS towards the origin (verified against --ca-file)
-        (b'https://secure-up.example/s', ('10.0.5.7', 443))]
+        (b'https://secure-up.example/s', ('10.0.5.7', 443)),
+        (b'https://secure-up.example:8443/t', ('10.0.5.7', 8443))]        # ... and an https upstream on a port of its own
 _px: Dict[str, Any] = {}
 
 
@@ -120,7 +121,7 @@ def run_one(tape: Any, cfg: Dict[str, Any], forbid: FrozenSet[str] = frozenset()
                     resp_by_conn.setdefault(id(peer), []).append(r)
                     return [('send', r, 'burst')]
                 pre: List[Any] = []
-                if a[1] == 443:
+                if a[1] in (443, 8443):
                     import ssl
                     sctx = ssl.SSLContext(ssl.PROTOCOL_TLS_SERVER)
                     sctx.load_cert_chain(_px['secure-up']['cert'], _px['secure-up']['key'])
